@@ -270,15 +270,24 @@ def plan_C14(b, tier, seed):
     return t
 FEATURES = {"C14": ("parallel",)}
 
+def B_h2c(b, cfg, seed, n):
+    return lambda: trace_validate(b, "h2c", "Trace_H2C", cfg, seed, n, label="B:h2c:%s:seed%d:n%d" % (cfg, seed, n))
+def plan_C13(b, tier, seed):
+    n = 120 if tier == "quick" else 1500
+    return [lambda: model_only("MC_H2C_RFC", {}, workers=1, label="M:MC_H2C_RFC"),
+            B_h2c(b, "bls12_381_g1", seed, n), B_h2c(b, "bls12_381_g2", seed, n), B_h2c(b, "fields", seed, n),
+            B_h2c(b, "bls12_381_g1", seed + 1, n), B_h2c(b, "bls12_381_g2", seed + 1, n)]
+
 LIT_CFGS = ["z1a", "z2b", "z4a", "z13a", "m127", "c25519", "g64", "z6c"]
 def plan_C20(b, tier, seed):
     hc = LIT_CFGS + [c + "h" for c in LIT_CFGS]
     jobs = literal_jobs(LIT_CFGS, hc)
     return [(lambda j=j: j) for j in jobs]
 
-PLANS = {"C14": plan_C14, "C06": plan_C06, "C20": plan_C20, "C18": plan_C18, "C17": plan_C17, "C05": plan_C05, "C09": plan_C09, "C10": plan_C10, "C11": plan_C11, "C19": plan_C19, "C07": plan_C07, "C08": plan_C08, "C03": plan_C03, "C04": plan_C04, "C12": plan_C12, "C01": plan_C01, "C02": plan_C02, "C15": plan_C15}
+PLANS = {"C13": plan_C13, "C14": plan_C14, "C06": plan_C06, "C20": plan_C20, "C18": plan_C18, "C17": plan_C17, "C05": plan_C05, "C09": plan_C09, "C10": plan_C10, "C11": plan_C11, "C19": plan_C19, "C07": plan_C07, "C08": plan_C08, "C03": plan_C03, "C04": plan_C04, "C12": plan_C12, "C01": plan_C01, "C02": plan_C02, "C15": plan_C15}
 
 RULES = {
+ "C13": "M: the specification's expand_message_xmd (incl. oversize DST) and hash_to_field reproduce the 30 expand_message_xmd vectors (SHA-256 / SHA-512, 38- and 256-byte DSTs) and the 10 BLS12-381 G1/G2 hash_to_field vectors of RFC 9380 inside TLC; B: seeded calls of the real DefaultFieldHasher (messages of 0..300 bytes, DSTs of 0, 1, 43, 255, 256, 280/300 bytes, 1..5 elements, Fq / Fq2 / several prime fields, SHA-256 and SHA-512), SWUMap on boundary and random u (0, small, p-1, ...), WBMap and the full hash_to_curve for BLS12-381 G1 and G2: TLC recomputes hash_to_field, checks the SWU point through the RFC's defining relation (x = x1 if g(x1) square else Z u^2 x1, y^2 = g(x), sgn0(y) = sgn0(u)), applies the isogeny as a rational map, adds with its own group law, clears the cofactor with h_eff and checks subgroup membership and determinism",
  "C14": "the harness is built a second time with the parallel feature of ark-ff / ark-ec / ark-poly / ark-serialize / ark-std; the SAME TLC-emitted transitions and recorded traces that decide C01/C03/C04/C05/C06/C07/C08/C17/C18 on the serial build are replayed inside rayon pools of 1, 2, 3, 4, 7, 16 threads (thorough: 1..9, 12, 13, 16, 17, 33) and judged by the same specification: FFT / IFFT of all domain kinds for every input length up to 32 and for sizes 32..128 (thorough 512; these pass the 128-element parallel-chunk threshold) incl. cosets, Lagrange coefficients, element tables, polynomial evaluation over domains, multiplication and division, batch inversion, sum of products, batch normalisation, scalar multiplication tables, MSM entry points and accumulators, multi-pairings, container / batched validity checks",
  "C06": "B: seeded programs on every pairing engine (BLS12-381 M-twist, BLS12-377 D-twist, BN254, BW6-761, BW6-767, MNT4-298/753, MNT6-298/753): registers of G1, G2, GT are loaded with known multiples of the generators (scalars 0, 1, 2, r-1, small, random), combined with add / neg / scalar multiplication, paired (single pairing, multi-pairing of 0,1,2,3,4,5,9 pairs, prepared inputs, Miller loop + final exponentiation, product of single pairings) and combined in GT (mul, inverse, power); after every step the set of registers equal to the written one, its identity-ness and - for GT - order-divides-r / Valid::check are logged and TLC requires the partition to be the partition of the discrete logarithms a*b. non-trivial = written register is not the identity",
  "C20": "A: for 8 moduli of the zoo (1, 2, 4, 6, 13 limbs; with / without spare bit; Mersenne 2^127-1, 2^255-19, Goldilocks), derived and hand-written configuration: TLC generates every literal sign x {decimal, 0x, 0X, 0o, 0O, 0b, 0B} x {0, 2 leading zeros} x 21 values (0, 1, 2, 10, 15, 16, 255, 2^32, 2^64-1, 2^64, 2^64+1, (p-1)/2, p-2, p-1, p, p+1, 2p, 2p+1, 2^(64N-1), (2^64N)/3, 2^(64N)-1) with the value it must denote; all ~800 literals per modulus are compiled as MontFp! / BigInt! constants and the constant's raw Montgomery limbs are compared with the run-time element of the same value; plus the derive macro's limb count, modulus limbs, R, R2, INV, bit size, two-adicity, generator and 2-adic root against their definitions",
@@ -305,11 +314,21 @@ def _glv_outside(mm, params):
 def _mnt_identity(mm, params):
     e = mm.get("event") or {}
     return mm.get("cfg") in params.get("cfgs", []) and e.get("op") == "pair" and e.get("has_identity") is True
-PREDICATES = {"glv_mul_outside_subgroup": _glv_outside, "mnt_pairing_identity": _mnt_identity}
+def _zpad(mm, params):
+    e = mm.get("event") or {}
+    if e.get("op") != "hash_to_prime_field": return False
+    pbytes = e.get("p") or []
+    pv = sum(b << (8 * i) for i, b in enumerate(pbytes))
+    L = (pv.bit_length() + int(e.get("k", 128)) + 7) // 8
+    block = {"sha256": 64, "sha384": 128, "sha512": 128}.get(e.get("hash"), 0)
+    return L != block
+PREDICATES = {"h2f_zpad_block_size": _zpad, "glv_mul_outside_subgroup": _glv_outside, "mnt_pairing_identity": _mnt_identity}
 NEEDS_CURVES = {"C06", "C16", "C02", "C12", "C04", "C13"}
 HOOK_COMMITS = ["b2d3621", "63ec7b9", "7c991e8"]
 NOT_APPLICABLE = {}
 META = {
+ "C13": {"text": "H2C.tla is an independent implementation of RFC 9380 (expand_message_xmd, hash_to_field, the simplified SWU map as a relation, sgn0, isogeny evaluation, hash_to_curve = clear_cofactor(iso(map(u0)) + iso(map(u1)))) over an abstract hash bound to the JVM's SHA-2 and validated inside TLC by the RFC's own vectors; traces of the real code are validated against it.",
+         "note": "SHA-2 itself is not modelled. Suites: BLS12-381 G1 / G2 with SHA-256 (test-curves); hash_to_field also on other fields and SHA-512, where the library's Z_pad length differs from the RFC (known finding). Elligator 2 (Bandersnatch) is not covered; toy SWU configurations are not enumerated (the exceptional inputs u = 0 etc. are in the boundary alphabet)."},
  "C14": {"text": "The specification has no notion of threads: every action's result is defined by the serial mathematical definition, so the thread count is an argument the result must not depend on. The parallel build is run inside explicit rayon pools of each size and its behaviour must be a behaviour of the same machines (exhaustive toy transitions + full-size traces). The parallel FFT splits whenever log n > log2(threads) and batch inversion chunks down to 1 element, so toy sizes already reach the splitting arithmetic; sizes up to 128/512 reach the 128-element chunk threshold of compute_powers and the degree-aware paths.",
          "note": "rayon's scheduler is not modelled as interleavings (the parallel code is data-parallel over disjoint chunks; races would be a memory-safety question outside this technique). Pool sizes larger than the input are included (16 and 33 threads on inputs of 2..8 elements)."},
  "C06": {"text": "PairingMachine is the abstract bilinear group on discrete logarithms (e(a g1, b g2) = ab e(g1,g2), multi-pairing = sum); TLC validates traces of the real engines through equality patterns only, which is what bilinearity, additivity, non-degeneracy (log e(g1,g2) = 1), identity preservation, multi-pairing = product and prepared = unprepared mean observationally; every output is also checked to have order dividing r.",
